@@ -631,7 +631,7 @@ func sameValue(a, b ssa.Value) bool {
 	if a == nil || b == nil {
 		return false
 	}
-	a, b = stripConv(a), stripConv(b)
+	a, b = unspill(stripConv(a)), unspill(stripConv(b))
 	if a == b {
 		return true
 	}
@@ -646,6 +646,27 @@ func sameValue(a, b ssa.Value) bool {
 		}
 	}
 	return false
+}
+
+// unspill: a load of a local cell that is stored exactly once denotes the stored value
+// (parameters and single-assignment locals whose address is taken are spilled by go/ssa).
+func unspill(v ssa.Value) ssa.Value {
+	for i := 0; i < 4; i++ {
+		ld, ok := v.(*ssa.UnOp)
+		if !ok || ld.Op != token.MUL {
+			return v
+		}
+		cell, ok := ld.X.(*ssa.Alloc)
+		if !ok {
+			return v
+		}
+		sts := storesTo(cell)
+		if len(sts) != 1 {
+			return v
+		}
+		v = stripConv(sts[0])
+	}
+	return v
 }
 
 // fieldLoadName: if v is a load of a struct field (x.f or (*x).f), return the field name and
